@@ -7,7 +7,7 @@ from lang import *  # noqa
 from props.common import sub_rng, diff_runs, replay_generic, corpus_cases
 
 replay = replay_generic
-OPS = ['lit', 'alias', 'read0', 'readlast', 'readbad', 'write0', 'writebad', 'len', 'app1', 'app2', 'rm0', 'rmlast', 'rmbad', 'rmfrac', 'rmneg', 'rmstr',
+OPS = ['readnear', 'writenear', 'rmnear', 'lit', 'alias', 'read0', 'readlast', 'readbad', 'write0', 'writebad', 'len', 'app1', 'app2', 'rm0', 'rmlast', 'rmbad', 'rmfrac', 'rmneg', 'rmstr',
        'elem', 'param', 'readfrac', 'readstr', 'readnumstr']
 
 
@@ -53,6 +53,12 @@ def step(m, k, op, tgt, other):
         return '%s %s[%s(%s) - 1];' % (PRINT, tgt, LEN, tgt)
     if op == 'readbad':
         m.err = True; return '%s %s[%s(%s)];' % (PRINT, tgt, LEN, tgt)
+    if op == 'readnear':
+        m.err = True; return '%s %s[(0.1 + 0.2) * 10 - 3 + 0.0000000001];' % (PRINT, tgt)
+    if op == 'writenear':
+        m.err = True; return '%s[1.0000000001] = %d;' % (tgt, val)
+    if op == 'rmnear':
+        m.err = True; return '%s = %s(%s, 0.9999999999);' % (other, REMOVE, tgt)
     if op == 'readfrac':
         m.err = True; return '%s %s[0.5];' % (PRINT, tgt)
     if op == 'readstr':
@@ -138,6 +144,15 @@ def run(env, tier, seed, broken=None):
         cid = 'q%d' % n; n += 1
         cases.append({'id': cid, 'src': src})
         expect[cid] = m
+    shared_literal = [
+        '%s mk() { %s [0, 0, 0]; }\n%s a = mk();\n%s b = mk();\na[0] = 7;\n%s a;\n%s b;\n%s %s(mk());\n%s mk();\n' % (FUN, RETURN, VAR, VAR, PRINT, PRINT, PRINT, LEN, PRINT),
+        '%s rows = [0, 0, 0];\n%s (%s i = 0; i < 3; i = i + 1) { %s r = [1, 2]; r[1] = r[1] + i * 10; rows[i] = r; }\n%s rows;\n' % (VAR, FOR, VAR, VAR, PRINT),
+        '%s k = 0;\n%s (k < 3) { k = k + 1; %s t = [5]; %s t; t[0] = k; %s %s(t, 9); }\n' % (VAR, WHILE, VAR, PRINT, PRINT, APPEND),
+        '%s g() { %s e = []; %s %s(e, 1); }\n%s x = g();\nx[0] = 5;\n%s g();\n%s x;\n' % (FUN, VAR, RETURN, APPEND, VAR, PRINT, PRINT),
+        '%s o() { %s {k: [1, 2]}; }\n%s p = o();\np.k[0] = 9;\n%s o();\n%s "s" == "s";\n' % (FUN, RETURN, VAR, PRINT, PRINT),
+    ]
+    for i, sl in enumerate(shared_literal):
+        cases.append({'id': 'sl%d' % i, 'src': sl})
     mism, ri, rm = diff_runs(env, cases)
     nontriv = set()
     for c in cases:
